@@ -376,6 +376,27 @@ pub fn generate(seed: u64, n: usize, tier: &str, out: &mut impl Write) {
             }
         }
     }
+    // packed fixed-width fields whose length is not a multiple of the element size, whole and truncated
+    for (number, width) in [(4u64, 4usize), (10, 8)] {
+        for n in 0..2 * width + 2 {
+            for cut in 0..3usize {
+                let mut payload: Vec<u8> = (0..n).map(|i| if i >= n - n % width { [0x08u8, 0x05, 0x0f][i % 3] } else { 0 }).collect();
+                let f = f_len(number, &payload);
+                let b = wrap_path(&[7, 5], f);
+                emit(out, "packedfix", &b[..b.len() - cut.min(b.len())]);
+                // top level of a TensorProto-like position is not reachable from ModelProto; also try the
+                // field directly with lying outer lengths
+                payload.truncate(n.saturating_sub(cut));
+                let mut g = f_len_hdr(number, n as u64);
+                g.extend(&payload);
+                let mut t = f_len_hdr(5, g.len() as u64 + cut as u64);
+                t.extend(&g);
+                let mut m = f_len_hdr(7, t.len() as u64 + cut as u64);
+                m.extend(&t);
+                emit(out, "packedfix-lie", &m);
+            }
+        }
+    }
     // nesting around the depth limit
     for c in [1usize, 10, 32, 33, 34, 35, 40] {
         emit(out, "deep-graph", &deep_graph(c, &[]));
